@@ -158,15 +158,206 @@ MODELS = [
 def run(rep, tier):
     run_status(rep)
     run_partition(rep, tier)
-    ops = [{'op': 'error_encode'}]
-    r = replay(ops)[0]
-    rep.replayed += 1
-    if not r.get('ok'):
-        rep.violation('C17:native-twin', f'native encode/partition sanity case fails: {r}', {'native': r})
+    run_encode(rep)
+    ops = [{'op': 'error_encode'}, {'op': 'error_encode_kinds'}]
+    for o, r in zip(ops, replay(ops)):
+        rep.replayed += 1
+        if not r.get('ok'):
+            rep.violation('C17:native-twin', f'native {o}: {r}', {'op': o, 'native': r})
     rep.assumptions += ['BTreeMap<String, String> iterates its entries in key order; HashMap insert stores the pair; Error::new at the boundary (backtrace capture is environment)',
                         'std::iter::Peekable / Option::is_some_and / str ordering by their documented contracts (so that refactorings of the partition loop stay decidable)']
     rep.outside += ['the JSON round trip of SerializableError (reduces to C01/C02 on a struct of strings and a string map)', 'more than 4 parameters',
-                    'encode(): the text of each scalar kind is exercised natively (twin) only; its symbolic check is not built']
+                    'encode(): the Display text of doubles (library), parameter kinds beyond the listed ones']
+
+
+# ------------------------------------------------------------------ encode(): one string entry per scalar parameter
+P = lambda name, *a: ('path', name, tuple(a))
+SE = r'types::serializable_error::'
+
+
+def M_sb_new(it, ctx, args, st):
+    yield st, Agg('SEBuilder', (None, None, None, ()))
+
+
+def M_sb_set(i):
+    def f(it, ctx, args, st):
+        b = args[0] if isinstance(args[0], Agg) and args[0].name == 'SEBuilder' else Agg('SEBuilder', (None, None, None, ()))
+        fl = list(b.fields)
+        v = args[1]
+        fl[i] = st.deref_all(v) if isinstance(v, Ptr) else v
+        yield st, Agg('SEBuilder', tuple(fl))
+    return f
+
+
+def M_sb_insert(it, ctx, args, st):
+    b = args[0]
+    k = st.deref_all(args[1]) if isinstance(args[1], Ptr) else args[1]
+    v = st.deref_all(args[2]) if isinstance(args[2], Ptr) else args[2]
+    yield st, Agg('SEBuilder', b.fields[:3] + (b.fields[3] + ((k, v),),))
+
+
+def M_sb_build(it, ctx, args, st):
+    yield st, Agg('SerializableError', args[0].fields)
+
+
+def M_display_to_string(it, ctx, args, st):
+    """<bool|f64 as ToString>::to_string: bool is "true"/"false"; a double's Display text is the library's (opaque token of the value)"""
+    v = args[0] if not isinstance(args[0], Ptr) else st.deref_all(args[0])
+    if z3.is_bool(v):
+        yield st, BStr(tuple(z3.If(v, z3.BitVecVal(a, 8), z3.BitVecVal(b, 8)) for a, b in zip(b'true\0', b'false')), z3.If(v, bv(4), bv(5)))
+    else:
+        yield st, Agg('DisplayText', (v,))
+
+
+ENCODE_MODELS = [
+    (SE + r'SerializableError::builder', M_sb_new),
+    (SE + r'Builder::<.*>::error_code', M_sb_set(0)), (SE + r'Builder::<.*>::error_name::<.*>', M_sb_set(1)), (SE + r'Builder::<.*>::error_instance_id', M_sb_set(2)),
+    (SE + r'Builder::<.*>::insert_parameters::<.*>', M_sb_insert), (SE + r'Builder::<.*>::build', M_sb_build),
+    (r'<(?:bool|f64|f32) as (?:std|alloc)::string::ToString>::to_string', M_display_to_string),
+]
+# parameter kinds of the harness error type: how the field's Serialize impl presents it, and the text the statement prescribes
+KINDS = ['bool', 'i32', 'i64', 'u64', 'f64', 'string', 'enum', 'some_i32', 'alias_i64', 'none', 'list', 'unit']
+SCALAR = {'bool', 'i32', 'i64', 'u64', 'f64', 'string', 'enum', 'some_i32', 'alias_i64'}
+
+
+def run_encode(rep, tier=None):
+    from checks import c13
+    from mirsym.models_std import chain_ok, parse_int_model
+    prog = program(['conjure_error', 'conjure_object'])
+    fn = find_fn(prog, 'encode', inpath='conjure_error::encode')
+    rep.bounds['encode'] = f'a harness error type with one parameter of each kind {KINDS} (integers at full width, strings <= 3 bytes, a unit-variant enum, a present optional, an alias)'
+    vals = {'bool': z3.Bool('pv_bool'), 'i32': z3.BitVec('pv_i32', 32), 'i64': z3.BitVec('pv_i64', 64), 'u64': z3.BitVec('pv_u64', 64), 'f64': z3.FP('pv_f64', z3.Float64()),
+            'some_i32': z3.BitVec('pv_some', 32), 'alias_i64': z3.BitVec('pv_alias', 64)}
+
+    def field_call(it, ctx, SS, sp, kind, s):
+        key = s.ref(bstr(kind.encode()))
+        if kind in ('bool', 'i32', 'i64', 'u64', 'f64'):
+            return it.call_trait(ctx.fr, SS, 'serde::ser::SerializeStruct', 'serialize_field', [P(kind)], [sp, key, s.ref(vals[kind])], s)
+        if kind == 'string':
+            return it.call_trait(ctx.fr, SS, 'serde::ser::SerializeStruct', 'serialize_field', [P('std::string::String')], [sp, key, s.aux['strp']], s)
+        return it.call_trait(ctx.fr, SS, 'serde::ser::SerializeStruct', 'serialize_field', [P('FieldProbe')], [sp, key, s.ref(Agg('FieldProbe', (kind,)))], s)
+
+    def T_ser(it, ctx, args, st):
+        S = ctx.gargs[0]
+        SS = it.normalize_proj(('proj', 'SerializeStruct', (S, P('serde::Serializer'))))
+
+        def fields(s, sp, k):
+            if k == len(KINDS):
+                yield from it.call_trait(ctx.fr, SS, 'serde::ser::SerializeStruct', 'end', [], [s.deref(sp)], s)
+                return
+            yield from chain_ok(it, field_call(it, ctx, SS, sp, KINDS[k], s), lambda s2, _: fields(s2, sp, k + 1))
+        yield from chain_ok(it, it.call_trait(ctx.fr, S, 'serde::Serializer', 'serialize_struct', [], [args[1], st.ref(bstr(b'Err')), bv(len(KINDS))], st),
+                            lambda s, ss: fields(s, s.ref(ss), 0))
+
+    def T_field_probe(it, ctx, args, st):
+        kind = st.deref_all(args[0]).fields[0]
+        S, ser = ctx.gargs[0], args[1]
+        nm = st.ref(bstr(b'T'))
+        if kind == 'enum':
+            yield from it.call_trait(ctx.fr, S, 'serde::Serializer', 'serialize_unit_variant', [], [ser, nm, z3.BitVecVal(1, 32), st.ref(bstr(b'VARIANT_B'))], st)
+        elif kind == 'some_i32':
+            yield from it.call_trait(ctx.fr, S, 'serde::Serializer', 'serialize_some', [P('i32')], [ser, st.ref(vals['some_i32'])], st)
+        elif kind == 'alias_i64':
+            yield from it.call_trait(ctx.fr, S, 'serde::Serializer', 'serialize_newtype_struct', [P('i64')], [ser, nm, st.ref(vals['alias_i64'])], st)
+        elif kind == 'none':
+            yield from it.call_trait(ctx.fr, S, 'serde::Serializer', 'serialize_none', [], [ser], st)
+        elif kind == 'unit':
+            yield from it.call_trait(ctx.fr, S, 'serde::Serializer', 'serialize_unit', [], [ser], st)
+        elif kind == 'list':
+            SQ = it.normalize_proj(('proj', 'SerializeSeq', (S, P('serde::Serializer'))))
+            yield from chain_ok(it, it.call_trait(ctx.fr, S, 'serde::Serializer', 'serialize_seq', [], [ser, it.some(bv(0))], st),
+                                lambda s, sq: it.call_trait(ctx.fr, SQ, 'serde::ser::SerializeSeq', 'end', [], [sq], s))
+        else:
+            raise Unsupported('field kind ' + kind)
+    tm = dict(models_serde.TMODELS)
+    tm.update({('ErrProbe', 'ErrorType', 'code'): lambda it, ctx, args, st: iter([(st, Agg('ErrorCodeToken', ()))]),
+               ('ErrProbe', 'ErrorType', 'name'): lambda it, ctx, args, st: iter([(st, st.ref(bstr(b'Ns:Err')))]),
+               ('ErrProbe', 'ErrorType', 'instance_id'): lambda it, ctx, args, st: iter([(st, it.some(Agg('UuidToken', ())))]),
+               ('ErrProbe', 'Serialize', 'serialize'): T_ser, ('FieldProbe', 'Serialize', 'serialize'): T_field_probe})
+    tm[(c13.ANY, 'Deserializer', 'deserialize_i128')] = c13.T_serde_default_128
+    tm[(c13.ANY, 'Deserializer', 'deserialize_u128')] = c13.T_serde_default_128
+    it = Interp(prog, ENCODE_MODELS + c13.MODELS + MODELS + models_serde.MODELS + models_std.MODELS, tm, unwind=len(KINDS) + 6)
+    dec = Decider(rep, it)
+    st = St()
+    from mirsym.harness import sym_str
+    strp, strv = sym_str(st, 'pv_str', 3)
+    st.aux['strp'] = strp
+    np_ = 0
+    for s2, rv in it.run(fn, [st.ref(Agg('ErrProbe', ()))], st, {'T': P('ErrProbe')}):
+        np_ += 1
+        rep.states += 1
+        tag = f'encode:path{np_}'
+        if isinstance(rv, Unwind):
+            rep.inconc(f'C17 {tag}: unwind {rv.where}')
+            continue
+        if isinstance(rv, Panic):
+            m = dec.decide(tag + ':panic', s2, z3.BoolVal(True))
+            if m is not None:
+                report_encode(rep, f'encode panics: {rv.msg}')
+            continue
+        if not (isinstance(rv, Agg) and rv.name == 'SerializableError'):
+            rep.inconc(f'C17 {tag}: unexpected result {rv!r:.100}')
+            continue
+        params = {}
+        dup = False
+        for k, v in rv.fields[3]:
+            kk = bstr_py(k).decode() if isinstance(k, BStr) and bstr_py(k) is not None else repr(k)
+            dup = dup or kk in params
+            params[kk] = v
+        good = not dup and set(params) == SCALAR and rv.fields[1] is not None
+        conds = []
+        if good:
+            for kind, got in params.items():
+                if kind in ('i32', 'i64', 'u64', 'some_i32', 'alias_i64'):
+                    bits, signed = {'i32': (32, True), 'i64': (64, True), 'u64': (64, False), 'some_i32': (32, True), 'alias_i64': (64, True)}[kind]
+                    if not isinstance(got, BStr):
+                        good = False
+                        continue
+                    ext = (z3.SignExt(64 - bits, vals[kind]) if signed else z3.ZeroExt(64 - bits, vals[kind])) if bits < 64 else vals[kind]
+                    rec = next((r for r in s2.aux.get('int_texts', ()) if r[0] is got), None)
+                    if rec is not None and rec[3] == signed:
+                        # the text is the Display of rec[1] (ghost record of the to_string model): compare the numbers
+                        w = rec[1].size()
+                        rv64 = rec[1] if w == 64 else (z3.SignExt(64 - w, rec[1]) if signed else z3.ZeroExt(64 - w, rec[1]))
+                        conds.append(rv64 != ext)
+                    else:
+                        ok, pv = parse_int_model(got, 64, signed)
+                        conds.append(z3.Not(z3.And(ok, pv == ext)))
+                elif kind == 'bool':
+                    good = good and isinstance(got, BStr)
+                    if isinstance(got, BStr):
+                        conds.append(z3.Not(z3.If(vals['bool'], bstr_eq(got, bstr(b'true')), bstr_eq(got, bstr(b'false')))))
+                elif kind == 'string':
+                    good = good and isinstance(got, BStr)
+                    if isinstance(got, BStr):
+                        conds.append(z3.Not(bstr_eq(got, strv)))
+                elif kind == 'enum':
+                    good = good and isinstance(got, BStr) and bstr_py(got) == b'VARIANT_B'
+                elif kind == 'f64':
+                    good = good and isinstance(got, Agg) and got.name == 'DisplayText'
+                    if good:
+                        conds.append(z3.Not(val_eq(got.fields[0], vals['f64'])))
+        rep.query(tag + ':one-entry-per-scalar-parameter', 'unsat' if good else 'sat', 0.0, entries=sorted(params))
+        if not good:
+            report_encode(rep, f'encode() yields parameter entries {sorted(params)} (texts {[(k, repr(v)[:40]) for k, v in params.items()][:6]}); the statement prescribes one string entry for each of {sorted(SCALAR)} and none for optional-absent / list / unit')
+            continue
+        for ci, c in enumerate(conds):
+            m = dec.decide(tag + f':text{ci}==value', s2, c)
+            if m is not None:
+                report_encode(rep, 'a scalar parameter is encoded as a different text than its value')
+                break
+    if np_ == 0:
+        rep.inconc('vacuity: encode() produced no outcome')
+    finish_engine(rep, it)
+
+
+def report_encode(rep, what):
+    r, r2 = replay([{'op': 'error_encode_kinds'}])[0], replay([{'op': 'error_encode_kinds'}], 'release')[0]
+    rep.replayed += 1
+    if not r.get('ok') and r == r2:
+        rep.violation('C17:encode', f'{what}; native encode of an error with one parameter of each kind: {r}', {'op': {'op': 'error_encode_kinds'}, 'native': r})
+    else:
+        rep.inconc(f'model mismatch C17 encode: {what}; native {r}')
 
 
 def run_status(rep):
